@@ -62,11 +62,6 @@ def splitWs : Str → List Str
       | [] => [[c]]
       | d :: _ => if isSpaceStr d then [c] :: splitWs cs else consHead c (splitWs cs)
 
-/-- `bytes.split(sep)` for a one byte separator: always at least one piece -/
-def splitOnC (d : Char) : Str → List Str
-  | [] => [[]]
-  | c :: cs => if c = d then [] :: splitOnC d cs else consHead c (splitOnC d cs)
-
 /-! decimal integers: `"%d" % n` and `int(token)` -/
 
 def digitChar (d : Nat) : Char := Char.ofNat (48 + d)
@@ -169,6 +164,20 @@ def phylipFormat (bs : Nat) (recs : List Rec) : Except Err Str :=
 
 /-! ### FASTA / GDE parsers (parse/fasta.py) -/
 
+/-- Behaviour switches: the two places where the modelled parsers of the pinned code and of the code with the
+proposed repairs (`fixes/C06-fasta-pre-label-text.patch`, `fixes/C06-gde-hash-label-strict.patch`) differ.
+The harness determines both switches by one probe each and then compares the code with that model on ALL
+inputs; every theorem is proved for every `Cfg` (the well-formed inputs never reach the switches). -/
+structure Cfg where
+  /-- `iter_fasta_records(bytes)` ignores whatever precedes the first label line (`records[1:]`) -/
+  dropPreLabel : Bool
+  /-- `_strict_parser` treats a `#` line as a comment only if `#` is not a label character (GDE) -/
+  gdeHashLabel : Bool
+  deriving DecidableEq, Repr
+
+/-- the code as pinned in /repo -/
+def Cfg.pinned : Cfg := ⟨false, false⟩
+
 /-- `line[0] in label_char` for a non-empty line -/
 def isLabel (lc : List Char) (line : Str) : Bool :=
   match line with
@@ -191,32 +200,32 @@ def fasterGo (lc : List Char) : Option Str → List Str → List Str → List Re
 def fasterParser (lc : List Char) (lines : List Str) : List Rec := fasterGo lc none [] lines
 
 /-- `_strict_parser` (l.95-123); the generator's first `raise` is the result of `list(...)` -/
-def strictGo (lc : List Char) : Option Str → List Str → List Str → Except Err (List Rec)
+def strictGo (cfg : Cfg) (lc : List Char) : Option Str → List Str → List Str → Except Err (List Rec)
   | label, seq, [] =>
     if seq.isEmpty then .error .recordError
     else match label with
       | none => .error .recordError
       | some l => .ok [(l, clean seq)]
   | label, seq, line :: rest =>
-    if line.isEmpty || line.head? = some '#' then strictGo lc label seq rest
+    if line.isEmpty || (line.head? = some '#' && !(cfg.gdeHashLabel && lc.contains '#')) then strictGo cfg lc label seq rest
     else if isLabel lc line then
       match label with
       | some l =>
         if seq.isEmpty then .error .recordError
-        else (strictGo lc (some (strip (line.drop 1))) [] rest).map (fun rs => (l, clean seq) :: rs)
+        else (strictGo cfg lc (some (strip (line.drop 1))) [] rest).map (fun rs => (l, clean seq) :: rs)
       | none =>
         if !seq.isEmpty then .error .recordError
-        else strictGo lc (some (strip (line.drop 1))) [] rest
-    else strictGo lc label (seq ++ [strip line]) rest
+        else strictGo cfg lc (some (strip (line.drop 1))) [] rest
+    else strictGo cfg lc label (seq ++ [strip line]) rest
 
-def strictParser (lc : List Char) (lines : List Str) : Except Err (List Rec) := strictGo lc none [] lines
+def strictParser (cfg : Cfg) (lc : List Char) (lines : List Str) : Except Err (List Rec) := strictGo cfg lc none [] lines
 
 /-- `MinimalFastaParser(path, strict)` on the *text* of a file: `_prep_data` does
 `infile.read().splitlines()`; `if not path: return []` is the caller's business -/
-def fastaStrict (text : Str) : Except Err (List Rec) := strictParser ['>'] (pySplitlines text)
+def fastaStrict (cfg : Cfg) (text : Str) : Except Err (List Rec) := strictParser cfg ['>'] (pySplitlines text)
 def fastaFaster (text : Str) : List Rec := fasterParser ['>'] (pySplitlines text)
 /-- `MinimalGdeParser`: label characters `"%#"` -/
-def gdeStrict (text : Str) : Except Err (List Rec) := strictParser ['%', '#'] (pySplitlines text)
+def gdeStrict (cfg : Cfg) (text : Str) : Except Err (List Rec) := strictParser cfg ['%', '#'] (pySplitlines text)
 
 /-- `minimal_converter.__call__`: upper-case, delete `b"\n\r\t "` -/
 def convertBytes (s : Str) : Str :=
@@ -228,19 +237,19 @@ def bytesRecord (record : Str) : Option Rec :=
   else if !(record.contains '\n') then none
   else some (bstrip (record.takeWhile (· ≠ '\n')), convertBytes ((record.dropWhile (· ≠ '\n')).drop 1))
 
-/-- `iter_fasta_records(data: bytes)`: `data.split(b">")` — on `>` **anywhere** -/
-def fastaBytes (text : Str) : List Rec := (splitOnC '>' text).filterMap bytesRecord
-
-/-- the *repaired* record splitter `re.split(rb"(?:\\A|(?<=\\n))>", data)` (fixes/C06-fasta-bytes-gt.patch):
-split only at a `>` that starts a line; `bol` = "at the beginning of a line" -/
+/-- `_label_start.split(data)` with `_label_start = re.compile(rb"(?:\\A|(?<=\\n))>")` (parse/fasta.py l.23, l.430):
+split only at a `>` that is the first byte of the data or directly follows a `\n`; a `>` anywhere else belongs
+to the label / record. `bol` = "at the beginning of a line". Always at least one piece. -/
 def splitLabelStart : Bool → Str → List Str
   | _, [] => [[]]
   | bol, c :: cs =>
     if bol && c = '>' then [] :: splitLabelStart false cs
     else consHead c (splitLabelStart (c = '\n') cs)
 
-/-- `iter_fasta_records(data: bytes)` with the repaired splitter -/
-def fastaBytesLS (text : Str) : List Rec := (splitLabelStart true text).filterMap bytesRecord
+/-- `iter_fasta_records(data: bytes)` (l.421-442) -/
+def fastaBytes (cfg : Cfg) (text : Str) : List Rec :=
+  let pieces := splitLabelStart true text
+  (if cfg.dropPreLabel then pieces.drop 1 else pieces).filterMap bytesRecord
 
 /-! ### PAML parser (parse/paml.py) -/
 
